@@ -27,8 +27,9 @@ Qed.
 
 (** ** history: nothing observable changes, nothing is raised (for selections on which it returns) *)
 Lemma history_keeps_state rnd L s :
-  observe (fst (step rnd L s History)) = observe s /\ snd (step rnd L s History) = ONone.
-Proof. split; reflexivity. Qed.
+  observe (fst (step rnd L s History)) = observe s /\ snd (step rnd L s History) = ONone /\
+  step rnd L s HistoryNone = (s, ONone).
+Proof. repeat split; reflexivity. Qed.
 
 (** ** a value before the first / after the last one: the same as first() / last() -- no order assumed *)
 Lemma nearest_index_below rnd vals v v0 : hd_error vals = Some v0 -> v < v0 -> nearest_index rnd vals v = Some 0.
@@ -253,12 +254,12 @@ Proof.
   split; [cbn; lia|]. unfold L_ex; cbn [lsets].
   repeat constructor; eexists; (split; [reflexivity|split; [reflexivity|repeat constructor; discriminate]]).
 Qed.
-Definition ops_ex : list op := [SetTime 50; Next; History; SetIndex (-3); SetStep 7; Prev; SetIndex 5; Last; Next; SetTime 1000; SetStep 0].
+Definition ops_ex : list op := [SetTime 50; Next; History; SetIndex (-3); SetStep 7; Prev; SetIndex 5; Last; HistoryNone; Next; SetTime 1000; SetStep 0].
 Example L_ex_run :
   observe (run (fun z => z) L_ex (open L_ex) ops_ex) = observe (fst (fresh_at L_ex 0)) /\
   map fst (trace (fun z => z) L_ex (open L_ex) ops_ex) =
-    [ONone; OBool true; ONone; ONone; ONone; OBool true; OExn IndexError; ONone; OBool false; ONone; ONone] /\
-  map (fun p => idx (snd p)) (trace (fun z => z) L_ex (open L_ex) ops_ex) = [1; 2; 2; 0; 2; 1; 1; 2; 2; 2; 0].
+    [ONone; OBool true; ONone; ONone; ONone; OBool true; OExn IndexError; ONone; ONone; OBool false; ONone; ONone] /\
+  map (fun p => idx (snd p)) (trace (fun z => z) L_ex (open L_ex) ops_ex) = [1; 2; 2; 0; 2; 1; 1; 2; 2; 2; 2; 0].
 Proof. vm_compute. repeat split. Qed.
 
 (** ** the two rounding-parametric theorems at the rounding the driver runs with (float64) *)
